@@ -1,26 +1,26 @@
 package main
 
-// collect lists every fact. Keep each one tiny and name where it comes from.
+// collect lists every fact: one function per property in facts_cXX.go. Keep each fact tiny and say where it comes from.
 func collect() {
-	// ---- C16
-	lb := "pkg/converters/utils/lbweight.go"
-	cmps := binaryCmps("pkg/converters/ingress/annotations/backend.go", "buildBackendBlueGreenBalance")
-	addBool("c16ClampLow", has(cmps, "w < 0"), "backend.go buildBackendBlueGreenBalance tests `w < 0` (clamp to 0)")
-	addBool("c16ClampHigh", has(cmps, "w > 256"), "backend.go buildBackendBlueGreenBalance tests `w > 256` (clamp to 256)")
-	addInt("c16GatewayBase", one(callArgs("pkg/converters/gateway/gateway.go", "createBackend", "convutils.RebalanceWeight", 1), "gateway base weight"),
-		"gateway.go createBackend: RebalanceWeight(cl, <base>)")
-	ints := intLits(lb, "RebalanceWeight")
-	n256 := 0
-	for _, i := range ints {
-		if i == "256" {
-			n256++
-		}
-	}
-	addInt("c16MaxWeightUses", itoa(n256), "number of literal 256 in RebalanceWeight (HAProxy max weight)")
-	// ---- C13
-	rl := "pkg/utils/workqueue/ratelimiters.go"
-	addStrList("c13ReloadWhenCalls", methodCalls(rl, "reloadHAProxy", "When"), "selector calls inside reloadHAProxy.When, in source order")
-	addStrList("c13IngressWhenCalls", methodCalls(rl, "ingressReconciler", "When"), "selector calls inside ingressReconciler.When, in source order")
+	factsC01()
+	factsC02()
+	factsC03()
+	factsC04()
+	factsC05()
+	factsC06()
+	factsC07()
+	factsC08()
+	factsC09()
+	factsC10()
+	factsC11()
+	factsC12()
+	factsC13()
+	factsC14()
+	factsC15()
+	factsC16()
+	factsC17()
+	factsC18()
+	factsC19()
 }
 
 func itoa(i int) string { return fmtInt(i) }
